@@ -20,7 +20,7 @@ func init() {
 	fw.Register(&fw.Property{
 		ID:    "C09",
 		Level: "exploration",
-		Rule: "cases = two peers, each ONE instance with 2-4 databases (mixed types; write lists wildcard / shared / disjoint) on the default shared event bus; 20-60 steps of {local write, remote write + delivery (replication), Load(-1), manual Sync} on a PRNG-chosen ACTIVE database while the others idle, roles rotating every few steps; then rounds in which two databases of one instance are written concurrently (with PRNG latency in the simulated topic.Peers call); finally both instances are restarted and every database is reopened and loaded (in half of the cases with ONE CreateDBOptions value reused for every Open). Monitors: wire log (every publish and direct send), a harness subscription to every store event on both shared buses, and (progress, max, entries, view) of every idle database before/after each phase. " +
+		Rule: "cases = two peers, each ONE instance with 2-4 databases (mixed types; write lists wildcard / shared / disjoint) on the default shared event bus; 20-60 steps of {local write, remote write + delivery (replication), Load(-1), manual Sync} on a PRNG-chosen ACTIVE database while the others idle, roles rotating every few steps; then rounds in which two databases of one instance are written concurrently (with PRNG latency in the simulated topic.Peers call); then a reconnect after which only the direct-channel head exchange (payloads for all databases back to back) can deliver one new entry per database and peer; finally both instances are restarted and every database is reopened and loaded (in half of the cases with ONE CreateDBOptions value reused for every Open). Monitors: wire log (every publish and direct send), a harness subscription to every store event on both shared buses, and (progress, max, entries, view) of every idle database before/after each phase. " +
 			"distinct = hash(database set, step script); non-trivial = >= 2 databases, >= 1 database idle while another replicated remote entries, and >= 10 wire messages checked",
 		Assumptions: []string{"simulated network records every message the stores publish or send", "the harness's own bus subscription has a large buffer and is drained continuously"},
 		Cases:       c09Cases,
@@ -350,6 +350,42 @@ func c09Run(c fw.Case) fw.Verdict {
 			}
 		}
 	}
+	// ---- head exchange on reconnect: payloads for ALL databases arrive back to back on the direct channel ----
+	for _, db := range dbs {
+		for _, p := range peers {
+			k++
+			_, _ = ApplyOp(bg, db.Stores[p.Idx], honestOp(db.Type, 70000+k))
+		}
+	}
+	e.W.Settle()
+	e.W.DropAll() // no announcement gets through: only the exchange on reconnect can deliver these entries
+	e.W.Cut(A, B)
+	e.W.Heal(A, B)
+	if !e.W.Flush() {
+		return fw.Verdict{Status: fw.Inconclusive, What: fmt.Sprintf("rest not reached: %v", e.H.Detail()), Trace: steps}
+	}
+	if vio := checkWire(); vio != nil {
+		return fail(vio)
+	}
+	converged := func() *Violation {
+		for _, db := range dbs {
+			a, b := stateOf(db, A), stateOf(db, B)
+			if !eqStrings(a.order, b.order) {
+				return &Violation{"crosstalk=direct-exchange", fmt.Sprintf("after reconnecting, the head exchange for %d databases left %s with %d entries on p0 and %d on p1 (each peer wrote one entry per database that only the exchange could deliver)", len(dbs), db.Name, len(a.order), len(b.order))}
+			}
+		}
+		return nil
+	}
+	if vio := converged(); vio != nil {
+		// negative verdict only at confirmed rest
+		if e.W.WaitIdle(sim.IdleOpts{Stable: confirmWindow(), Watchdog: 60 * time.Second, PoolMustBeEmpty: true}) {
+			if vio = converged(); vio != nil {
+				return fail(vio)
+			}
+		}
+	}
+	v.Count("direct_exchange_rounds", 1)
+	takeEvents()
 	cancel()
 	wg.Wait()
 	// ---- restart both instances: every database must come back with its own entries ----
